@@ -346,6 +346,7 @@ Proof.
   - intros H; inversion H; subst; auto.
   - intros H; inversion H; subst; auto.
   - intros H; inversion H; subst; auto.
+  - intros H; inversion H; subst; auto.
 Qed.
 
 Lemma step_inv m o m' x : step m o = Ok (m', x) -> exists rs, step_rec m o = Ok (m', rs).
